@@ -14,6 +14,8 @@ ANALYSIS-ERROR (the checker is wrong, not the repository).
 """
 from __future__ import annotations
 
+import ast
+
 import importlib
 import os
 from concurrent.futures import ProcessPoolExecutor
@@ -186,6 +188,62 @@ def _run_seeded(args) -> Dict[str, Any]:
     return {"id": case["id"], "kind": "seeded", "status": "FAILED", "why": f"seeded change no longer reported (fresh={fresh[:3]})"}
 
 
+def _run_alpha(args) -> Dict[str, Any]:
+    """alpha-rename the locals of one anchored function: the verdict set must not change"""
+    prop, qual, repo = args
+    global _BASE
+    if _BASE is None or _BASE.repo != repo:
+        _BASE = Program(repo)
+    base = _BASE
+    from .alpha import local_names, rename_in_source
+    fn = base.funcs.get(qual)
+    rid = f"alpha:{qual}"
+    if fn is None:
+        return {"id": rid, "kind": "alpha", "status": "skipped"}
+    names = local_names(fn.node)
+    if not names:
+        return {"id": rid, "kind": "alpha", "status": "skipped"}
+    text = rename_in_source(fn.module.src, fn.node, names)
+    if not text:
+        return {"id": rid, "kind": "alpha", "status": "skipped"}
+    try:
+        ast.parse(text)
+    except SyntaxError:
+        return {"id": rid, "kind": "alpha", "status": "skipped"}
+    try:
+        b, _ = _viol(prop, base)
+        v, _ = _viol(prop, base.with_override(fn.module.rel, text))
+    except AnalysisError as e:
+        return {"id": rid, "kind": "alpha", "status": "FAILED", "why": f"anchor lost under renaming of locals: {e}"[:200]}
+    norm = lambda st: {(r, k.replace("_zq", "")) for r, k in st}
+    fresh = sorted(norm(v) - norm(b))
+    gone = sorted(norm(b) - norm(v))
+    if fresh:
+        return {"id": rid, "kind": "alpha", "status": "FAILED", "why": f"renaming locals raised {fresh[:2]}"}
+    if gone:
+        return {"id": rid, "kind": "alpha", "status": "FAILED", "why": f"renaming locals hid {gone[:2]}"}
+    return {"id": rid, "kind": "alpha", "status": "silent", "names": len(names)}
+
+
+def alpha_targets(prop: str, repo: str) -> List[str]:
+    """functions in which a rule instance of the property is anchored (the part of a result key before '/')"""
+    global _BASE
+    if _BASE is None or _BASE.repo != repo:
+        _BASE = Program(repo)
+    try:
+        _, ctx = _viol(prop, _BASE)
+    except AnalysisError:
+        return []
+    out = []
+    for r in ctx.results:
+        q = r.key.split("/")[0]
+        while q and q not in _BASE.funcs and "." in q.split(":")[-1]:
+            q = q.rsplit(".", 1)[0]
+        if q in _BASE.funcs and q not in out:
+            out.append(q)
+    return sorted(out)
+
+
 def cases_for(prop: str) -> List[Case]:
     try:
         mod = importlib.import_module(f"sa.selftests.{prop.lower()}")
@@ -202,17 +260,21 @@ def run_for(prop: str, repo: str = REPO, jobs: Optional[int] = None) -> Dict[str
     jobs = jobs or max(1, min(16, len(cases) + len(seeded), os.cpu_count() or 4))
     work = [(prop, c, repo) for c in cases]
     swork = [(prop, c, repo) for c in seeded]
+    awork = [(prop, q, repo) for q in alpha_targets(prop, repo)]
+    jobs = max(jobs, min(16, len(awork)))
     if jobs > 1:
         with ProcessPoolExecutor(max_workers=jobs) as ex:
-            res = list(ex.map(_run_case, work)) + list(ex.map(_run_seeded, swork))
+            res = list(ex.map(_run_case, work)) + list(ex.map(_run_seeded, swork)) + list(ex.map(_run_alpha, awork))
     else:
-        res = [_run_case(w) for w in work] + [_run_seeded(w) for w in swork]
+        res = [_run_case(w) for w in work] + [_run_seeded(w) for w in swork] + [_run_alpha(w) for w in awork]
     failed = [r for r in res if r["status"] == "FAILED"]
     out = {
         "selftest": {
             "cases": len(res),
             "mutants_killed": sum(1 for r in res if r["status"] == "killed"),
-            "twins_silent": sum(1 for r in res if r["status"] == "silent"),
+            "twins_silent": sum(1 for r in res if r["status"] == "silent" and r["kind"] != "alpha"),
+            "alpha_twins_silent": sum(1 for r in res if r["status"] == "silent" and r["kind"] == "alpha"),
+            "alpha_twins_skipped": sum(1 for r in res if r["status"] == "skipped"),
             "stale": sum(1 for r in res if r["status"] == "stale"),
             "seeded_changes_detected": sum(1 for r in res if r["kind"] == "seeded" and r["status"] == "killed"),
             "failed": len(failed),
